@@ -587,6 +587,27 @@ pub fn c05(cx: &Ctx) -> Vec<Finding> {
                     format!("{who}; the sink received it {} times", same.len()),
                     same[1].start,
                 ));
+            } else if !cx.has_share && !via_combine {
+                // "the remaining live upstreams are disposed": every other instance of this
+                // subscription that was live when the failure began is told to stop exactly once
+                for other in &cx.insts {
+                    if other.sub != inst.sub || (other.pup, other.inst) == (inst.pup, inst.inst) {
+                        continue;
+                    }
+                    if other.live_at(*x) && other.ended_at.is_none() && other.terms.len() != 1 {
+                        out.push(finding(
+                            "C05",
+                            "C05:sibling-not-disposed",
+                            format!(
+                                "{who}; the live upstream p{}.{} received {} terminations",
+                                other.pup,
+                                other.inst,
+                                other.terms.len()
+                            ),
+                            *x,
+                        ));
+                    }
+                }
             }
         }
     }
